@@ -182,13 +182,13 @@ def run(rep, tier):
         exp = [[ONE, Z, R(sym("a1"))], [Z, ONE, R(sym("a2"))], [Z, Z, ONE]]
         if not all(M[i][j].equals(exp[i][j]) for i in range(3) for j in range(3)):
             rep.bad("R13.4", "translate", "translate(xoff, yoff) is not [[1,0,xoff],[0,1,yoff],[0,0,1]]", where=fn.loc())
-        o3 = (R(sym("into(a3).x")), R(sym("into(a3).y")))
+        o3 = (R(sym("a3.x")), R(sym("a3.y")))
         check_ctor("scale", lambda M: [[R(sym("a1")), Z], [Z, R(sym("a2"))]], o3)
-        o2 = (R(sym("into(a2).x")), R(sym("into(a2).y")))
+        o2 = (R(sym("a2.x")), R(sym("a2.y")))
         s = R(sym("sin_cos(to_radians(a1)).0"))
         c = R(sym("sin_cos(to_radians(a1)).1"))
         check_ctor("rotate", lambda M: [[c, -s], [s, c]], o2)
-        o3b = (R(sym("into(a3).x")), R(sym("into(a3).y")))
+        o3b = (R(sym("a3.x")), R(sym("a3.y")))
         # skew: tan values are snapped to zero on separate paths: read them from the matrix, require unit diagonal
         check_ctor("skew", lambda M: [[ONE, M[0][1]], [M[1][0], ONE]], o3b)
         fn, ps = body("skew")
